@@ -331,6 +331,28 @@ def gen_case(rng, stratum, pairing, tier='quick', delays=None, adversary=None, u
         if rng.random() < 0.1:
             # the magnitude of the shipped configurations (5e11 / 2.5e11) with small data
             hot_cap, cold_cap = 500000000000, rng.choice([250000000000, 500000000000])
+    near_fit = False
+    if st == 'refuse' and len(obs) >= 2 and obs[0]['duration'] >= 2 and rng.random() < 0.3:
+        # a second observation falls due while the first (started at t=0) is still streaming
+        # in, and misses the free hot space by less than one step of the first one's data rate
+        o0, o1 = obs[0], obs[1]
+        shift = o0['start']
+        for o in obs:
+            o['start'] = max(0, o['start'] - shift)
+        t1 = rng.randint(1, o0['duration'] - 1)
+        o1['start'] = t1
+        v1 = o1['rate'] * o1['duration']
+        cap = o0['rate'] * t1 + v1 - rng.randint(1, o0['rate'])
+        if cap > max(vols) and n >= 2:
+            hot_cap = cap
+            cold_cap = max(cold_cap, hot_cap)
+            near_fit = True
+            # arrays and ingest machines must not be what postpones the second observation
+            total_arrays = max(total_arrays, 2)
+            max_ingest = max(max_ingest, 2)
+            for o in (o0, o1):
+                o['demand'] = 1
+                o['ingest_demand'] = 1
     # ---- algorithm parameters
     alg = {}
     if pairing == 'batch':
@@ -379,7 +401,7 @@ def gen_case(rng, stratum, pairing, tier='quick', delays=None, adversary=None, u
         'adversary': adversary, 'permute': None,
         # Buffer.threshold is a public attribute: with tiering switched off the tight-buffer
         # states that the known tiering defects (K1a/K1b) normally cut short can be explored
-        'tiering_off': bool(st in ('tight', 'refuse') and rng.random() < 0.4),
+        'tiering_off': bool(near_fit or (st in ('tight', 'refuse') and rng.random() < 0.4)),
     }
     if unit is not None:
         rescale_units(case, unit, offgrid=rng)
